@@ -104,6 +104,8 @@ fn lib_case(rep: &mut Report, rng: &mut Rng, log: &slog::Logger) {
 // ---------------------------------------------------------------- binary level
 
 struct Log {
+    /// single ECU, one lifecycle, calculated time == reception time == base + k ms
+    mono: bool,
     path: String,
     msgs: Vec<(DltMessage, String)>,
 }
@@ -111,8 +113,9 @@ struct Log {
 fn write_log(dir: &std::path::Path, rng: &mut Rng, n: usize, name: &str) -> Log {
     let mut msgs = Vec::with_capacity(n);
     let mut bytes = Vec::new();
+    let mono = name.starts_with("mono");
     for k in 0..n {
-        let ecu = *rng.pick(&ECUS);
+        let ecu = if mono { ECUS[0] } else { *rng.pick(&ECUS) };
         let text = format!("{} #{}", rng.pick(&TEXTS), k);
         let vmm = *rng.pick(&[0x41u8, 0x41, 0x21, 0x31, 0x61, 0x51]);
         let mut m = mk_msg(k as u32, ecu, Some((vmm, *rng.pick(&APIDS), *rng.pick(&APIDS))), 0, &text, true);
@@ -125,7 +128,7 @@ fn write_log(dir: &std::path::Path, rng: &mut Rng, n: usize, name: &str) -> Log 
     }
     let path = dir.join(name);
     std::fs::write(&path, bytes).unwrap();
-    Log { path: path.to_string_lossy().to_string(), msgs }
+    Log { mono, path: path.to_string_lossy().to_string(), msgs }
 }
 
 fn spec_keep_set(fs: &[AbsFilter], m: &DltMessage, t: &str) -> bool {
@@ -233,6 +236,7 @@ fn check_msgs(got: &[RMsg], exp: &[usize], log: &Log) -> Option<String> {
 fn bin_session(rep: &mut Report, rng: &mut Rng, srv: &mut Server, logs: &[Log], slow_server: bool) -> Option<(String, String, serde_json::Value)> {
     let log = match rng.below(10) {
         0 | 1 if !slow_server => &logs[2],
+        9 | 8 => &logs[3],
         2..=5 => &logs[1],
         _ => &logs[0],
     };
@@ -445,9 +449,17 @@ fn bin_session(rep: &mut Report, rng: &mut Rng, srv: &mut Server, logs: &[Log], 
                 // we ask for the reception time based value only when it is exact: time of message k is start+ts; use a time between two messages via the reply of an exact lookup
                 (String::new(), 0)
             };
-            if !by_index {
-                continue;
-            }
+            let (q, exp) = if !by_index {
+                if !log.mono {
+                    continue;
+                }
+                // calculated time of message k = base + k ms (exact, one message per ms)
+                let base_ms = 1_600_000_000_000u64;
+                let t_ms = base_ms + wanted_pos_all as u64;
+                (format!("time_ms={}", t_ms), stream_pos.iter().position(|p| *p >= wanted_pos_all).unwrap_or(stream_pos.len()))
+            } else {
+                (q, exp)
+            };
             let (r, _) = send(&mut cl, format!("stream_binary_search {} {}", id, q), &mut history);
             let reply = match r {
                 Some(r) => r,
@@ -494,7 +506,7 @@ pub fn run(p: &Params) -> Report {
     let dir = tempfile::tempdir().expect("tempdir");
     let mut rng0 = Rng::new(p.case_seed(0) ^ 0xC16);
     let logs: Vec<Log> = if bin.is_some() {
-        vec![write_log(dir.path(), &mut rng0, 0, "empty.dlt"), write_log(dir.path(), &mut rng0, 37, "l37.dlt"), write_log(dir.path(), &mut rng0, 700, "l700.dlt"), write_log(dir.path(), &mut rng0, 20_000, "l20k.dlt")]
+        vec![write_log(dir.path(), &mut rng0, 0, "empty.dlt"), write_log(dir.path(), &mut rng0, 37, "l37.dlt"), write_log(dir.path(), &mut rng0, 700, "l700.dlt"), write_log(dir.path(), &mut rng0, 20_000, "l20k.dlt"), write_log(dir.path(), &mut rng0, 500, "mono500.dlt")]
     } else {
         vec![]
     };
